@@ -3,7 +3,7 @@ REPO ?= $(or $(VERIF_REPO),/repo)
 B := build
 CXX := g++
 CXXFLAGS := -std=c++17 -O2 -g -Wall -Wno-unused -Wno-misleading-indentation -Wno-parentheses -Wno-maybe-uninitialized -I$(B)/inc -Isrc
-ENGINES := x_parse x_print x_hist x_fault x_compare x_minify x_utils
+ENGINES := x_parse x_print x_hist x_fault x_compare x_minify x_utils x_sched
 HDRS := $(wildcard src/*.hpp) $(wildcard src/*.inc)
 OBJS := $(B)/h/sup.o $(patsubst %,$(B)/h/%.o,$(filter $(ENGINES),$(basename $(notdir $(wildcard src/x_*.cpp)))))
 
